@@ -539,3 +539,71 @@ func genFoldArray(w *World, res *CheckResult) {
 		}
 	}
 }
+
+// genFoldNonConstant: fold.Exit rewrites an arithmetic operation only when both operands are literals. A cell per
+// operator and side: one operand is an identifier of arbitrary static type, the other an integer literal of
+// arbitrary value and type; the real fold.Exit must leave the slot and fold.err as they were. (An "identity"
+// rewrite such as x * 1 -> x drops the promotion of x to the common kind of the two operands.)
+func genFoldNonConstant(w *World, res *CheckResult) {
+	lay := astLayout{w}
+	foldFn := w.Func("optimizer.fold.Exit")
+	if foldFn == nil {
+		res.Obls = append(res.Obls, missingObl("optimizer.fold[non-constant]/exists", "function not found"))
+		return
+	}
+	fst := foldFn.Params[0].Type().Underlying().(*types.Pointer).Elem().Underlying().(*types.Struct)
+	errOff := fieldLeafOffset(fst, 1)
+	for _, op := range []string{"+", "-", "*", "/", "%", "**"} {
+		for _, side := range []string{"left", "right"} {
+			cell := fmt.Sprintf("optimizer.fold[%s,non-constant-%s]", op, side)
+			e := NewExec(w)
+			e.SafeMode = func(f *ssa.Function) string { return "panics" }
+			st := NewState()
+			e.paramMode = true
+			fv := e.havocValue(st, foldFn.Params[0].Type(), "fold")
+			slot := e.havocValue(st, foldFn.Params[1].Type(), "node")
+			e.paramMode = false
+			st.Assume(Not(Eq(fv.One(), NilLoc)))
+			st.Assume(Not(Eq(slot.One(), NilLoc)))
+			bn, idn, lit := FreshPre(st, "bin"), FreshPre(st, "ident"), FreshPre(st, "lit")
+			objs := []*Term{bn, idn, lit, slot.One(), fv.One()}
+			for i := range objs {
+				for j := i + 1; j < len(objs); j++ {
+					AssumeDistinctObjs(st, objs[i], objs[j])
+				}
+			}
+			old := lay.ptrVal("BinaryNode", bn)
+			st.Store(slot.One(), old)
+			st.Store(LocField(bn, lay.off("BinaryNode", "Operator")), StrLit(op))
+			idv, litv := lay.ptrVal("IdentifierNode", idn), lay.ptrVal("IntegerNode", lit)
+			if side == "left" {
+				st.Store(LocField(bn, lay.off("BinaryNode", "Left")), idv)
+				st.Store(LocField(bn, lay.off("BinaryNode", "Right")), litv)
+			} else {
+				st.Store(LocField(bn, lay.off("BinaryNode", "Left")), litv)
+				st.Store(LocField(bn, lay.off("BinaryNode", "Right")), idv)
+			}
+			st.Store(LocField(lit, lay.off("IntegerNode", "Value")), Fresh("b", SBV(64)))
+			st.Store(LocField(lit, 2), Fresh("littype", SInt))
+			st.Store(LocField(idn, 2), Fresh("identtype", SInt))
+			st.Store(LocField(bn, 2), Fresh("bintype", SInt))
+			st.Store(LocField(fv.One(), errOff), NilLoc)
+			n := 0
+			for _, o := range e.Run(foldFn, []*Value{fv, slot}, st, nil) {
+				n++
+				if o.Panic != nil {
+					e.AddVC(cell+"/post:unchanged", "post", foldFn.String(), o.St, True, "fold.Exit must not fail on an operation with a non-constant operand")
+					continue
+				}
+				cur := o.St.Load(slot.One(), SVal)
+				errSet := Not(Eq(o.St.Load(LocField(fv.One(), errOff), SLoc), NilLoc))
+				e.AddVC(cell+"/post:unchanged", "post", foldFn.String(), o.St, Or(Not(Eq(cur, old)), errSet), "an operation with a non-constant operand is neither rewritten nor rejected by the folder")
+			}
+			if n == 0 {
+				res.Obls = append(res.Obls, missingObl(cell+"/post:unchanged", "no path of fold.Exit explored"))
+			}
+			res.Obls = append(res.Obls, e.obls...)
+			res.Assumptions = append(res.Assumptions, e.Notes()...)
+		}
+	}
+}
